@@ -14,8 +14,8 @@ BUDGET = {"quick": 200, "thorough": 1800}
 ANCHORED = ["PytorchEngine.train_step", "_AdversarialFairness.partial_fit", "BackendEngine.__init__"]
 RULE = ("random cases: batches of 2..16 rows with 1..5 inputs; predictor and adversary are torch modules owned by the harness (0..2 "
         "hidden layers of width 1..6, ReLU/tanh; final sigmoid / softmax / identity according to the target type) so their parameters "
-        "are snapshotted before and after EVERY training step (1..3 consecutive partial_fit calls, or fit with one batch) under plain SGD (lr eta for "
-        "both optimisers); binary / 3-4-class / continuous targets and sensitive features; demographic parity and equalized odds; "
+        "are snapshotted before and after EVERY training step (1..3 consecutive partial_fit calls, or fit with one batch) under plain SGD (separately configured learning rates for the two optimisers; alpha may be changed through "
+        "set_params between steps); binary / 3-4-class / continuous targets and sensitive features; demographic parity and equalized odds; "
         "alpha in {0,0.3,1,5}; eta in {0.01,0.1,1}. Oracle (autograd on deep copies taken before the step, documented losses: BCE, "
         "cross-entropy, MSE with mean reduction): per predictor tensor (W_before-W_after)/eta = dLP/dW - proj_{dLA/dW}(dLP/dW) - "
         "alpha*dLA/dW with the Frobenius projection, <update+alpha*dLA, dLA>_F = 0, adversary tensors follow -eta*dLA/dU. "
@@ -73,7 +73,7 @@ def loss_fn(torch, name):
     return {"bce": torch.nn.BCELoss(reduction="mean"), "ce": torch.nn.CrossEntropyLoss(reduction="mean"), "mse": torch.nn.MSELoss(reduction="mean")}[name]
 
 
-def check_step(ctx, torch, pred0, adv0, pred, adv, X, Y, A, yloss, aloss, constraint, alpha, eta, step, wit):
+def check_step(ctx, torch, pred0, adv0, pred, adv, X, Y, A, yloss, aloss, constraint, alpha, eta, step, wit, eta_adv=None):
     """One SGD step: (pred0, adv0) are copies taken before it, (pred, adv) the user-visible modules after it."""
     nontrivial = False
     wit = dict(wit, step=step + 1)
@@ -113,8 +113,9 @@ def check_step(ctx, torch, pred0, adv0, pred, adv, X, Y, A, yloss, aloss, constr
                 nontrivial = True
     for i, (u_before, u_after) in enumerate(zip(adv0.parameters(), adv.parameters())):
         gU = dLA_U[i] if dLA_U[i] is not None else torch.zeros_like(u_before)
-        observed = (u_before.detach() - u_after.detach()) / eta
-        atol = 2e-4 * float(gU.abs().max()) + 4e-7 * (1.0 + float(u_before.abs().max())) / eta
+        ea = eta if eta_adv is None else eta_adv
+        observed = (u_before.detach() - u_after.detach()) / ea
+        atol = 2e-4 * float(gU.abs().max()) + 4e-7 * (1.0 + float(u_before.abs().max())) / ea
         err = float((observed - gU).abs().max())
         ctx.ev("adversary_tensors_compared")
         ctx.check(err <= atol, "adversary_update_is_not_the_plain_gradient_of_its_loss", tensor=i, shape=list(u_before.shape), max_abs_err=err, tol=atol, wit=wit)
@@ -139,16 +140,17 @@ def run_case(cls, key, seed, ctx):
     constraint = gen.pick(rng, ["demographic_parity", "equalized_odds"])
     alpha = float(gen.pick(rng, [0.0, 0.3, 1.0, 5.0]))
     eta = float(gen.pick(rng, [0.01, 0.1, 1.0]))
+    eta_adv = eta if rng.random() < 0.4 else float(gen.pick(rng, [0.01, 0.05, 0.3]))   # the two optimisers are configured separately
     entry = gen.pick(rng, ["partial_fit", "fit_one_batch"])
     pred = build_module(torch, rng, d, ny, yfinal)
     adv = build_module(torch, rng, ny * (2 if constraint == "equalized_odds" else 1), na, afinal)
     pred0, adv0 = copy.deepcopy(pred), copy.deepcopy(adv)
     Est = AdversarialFairnessRegressor if ykind == "continuous" else AdversarialFairnessClassifier
     est = Est(backend="torch", predictor_model=pred, adversary_model=adv,
-              predictor_optimizer=lambda m: torch.optim.SGD(m.parameters(), lr=eta), adversary_optimizer=lambda m: torch.optim.SGD(m.parameters(), lr=eta),
+              predictor_optimizer=lambda m: torch.optim.SGD(m.parameters(), lr=eta), adversary_optimizer=lambda m: torch.optim.SGD(m.parameters(), lr=eta_adv),
               constraints=constraint, alpha=alpha, batch_size=-1 if entry == "fit_one_batch" else 4, epochs=1, shuffle=False, random_state=int(rng.integers(0, 1000)))
     shapes = [tuple(p.shape) for p in pred0.parameters()]
-    wit = {"target": ykind, "sensitive": akind, "constraint": constraint, "alpha": alpha, "eta": eta, "entry": entry, "n": n,
+    wit = {"target": ykind, "sensitive": akind, "constraint": constraint, "alpha": alpha, "eta": eta, "eta_adversary": eta_adv, "entry": entry, "n": n,
            "predictor_shapes": [list(s) for s in shapes], "adversary_shapes": [list(p.shape) for p in adv0.parameters()]}
     nontrivial = False
     n_steps = 1 if entry == "fit_one_batch" else int(gen.pick(rng, [1, 2, 3]))
@@ -156,6 +158,11 @@ def run_case(cls, key, seed, ctx):
     for step in range(n_steps):
         if step > 0:
             pred0, adv0 = copy.deepcopy(pred), copy.deepcopy(adv)   # state before this step
+            if rng.random() < 0.5:
+                # alpha is re-tuned between steps (set_params / an alpha-scheduling callback): the step uses the CURRENT alpha
+                alpha = float(gen.pick(rng, [0.0, 0.3, 1.0, 5.0]))
+                est.set_params(alpha=alpha)
+                wit = dict(wit, alpha_changed_before_step=step + 1, alpha=alpha)
         if entry == "partial_fit":
             # later steps reuse the rows in another order (same classes, so the label transforms stay valid)
             order = np.arange(n) if step == 0 else rng.permutation(n)
@@ -164,5 +171,5 @@ def run_case(cls, key, seed, ctx):
             order = np.arange(n)
             est.fit(X, y_raw, sensitive_features=a_raw)
             ctx.check(getattr(est, "n_iter_", None) == 1, "fit_with_one_batch_did_not_do_exactly_one_step", n_iter=getattr(est, "n_iter_", None), wit=wit)
-        nontrivial |= check_step(ctx, torch, pred0, adv0, pred, adv, X[order], Y[order], A[order], yloss, aloss, constraint, alpha, eta, step, wit)
+        nontrivial |= check_step(ctx, torch, pred0, adv0, pred, adv, X[order], Y[order], A[order], yloss, aloss, constraint, alpha, eta, step, wit, eta_adv)
     ctx.mark([ykind, akind, constraint, shapes, alpha, eta, entry], nontrivial, sample=wit)
